@@ -523,7 +523,7 @@ func callSSA(i *interpreter, caller *frame, callpos token.Pos, fn *ssa.Function,
 		if fn.Name() == "init" && fn.Synthetic != "" && fn.Pkg != nil && !i.ld.initAllowed(fn.Pkg.Pkg.Path()) {
 			return nil
 		}
-		if ext := externals[name]; ext != nil {
+		if ext := externals[name]; ext != nil && (!driverOnly[name] || callerIsDriver(caller)) {
 			if strings.HasPrefix(name, "(reflect.") || strings.HasPrefix(name, "reflect.") {
 				return callReflectExt(fr, name, ext, args)
 			}
